@@ -92,6 +92,9 @@ inductive E where
   | dot (x : E) (name : String)
   | index (x y : E)
   | group (x : E)
+  /-- `opt a e`: the call/member chain `e`, rooted at the variable `a`, with its innermost link made optional:
+      `a?.b.c(d)` (an OptionalExpression whose base is the root of the chain) -/
+  | opt (root : String) (e : E)
 deriving Repr, Inhabited
 
 /-- statements; `S.empty` is an `EmptyStmt` node, `S.absent` an absent (`nil`) else branch; `ret none` is a bare
@@ -122,6 +125,33 @@ def isGroup : E → Bool
 def isVar : E → Bool
   | var _ => true
   | _ => false
+
+def isOpt : E → Bool
+  | opt _ _ => true
+  | _ => false
+
+/-- a link of a call/member chain -/
+def isLink : E → Bool
+  | call _ _ => true
+  | dot _ _ => true
+  | index _ _ => true
+  | _ => false
+
+/-- the root of a call/member chain (the expression the innermost link is applied to) -/
+def chainRoot : E → E
+  | call f _ => chainRoot f
+  | dot x _ => chainRoot x
+  | index x _ => chainRoot x
+  | e => e
+
+/-- the variable at the root of a (possibly empty) call/member chain, parentheses around the variable ignored -/
+def rootVar? (e : E) : Option String :=
+  match (chainRoot e).inner with
+  | var n => some n
+  | _ => none
+
+/-- the variable a non-empty call/member chain is rooted at -/
+def chainVar? (e : E) : Option String := if isLink e then rootVar? e else none
 
 end E
 
